@@ -43,7 +43,11 @@ RULE = ("constructor kind (floats without/with reference, reference as datetime 
         "histories over {read, re-reference, copy, modify with every kind of option and combination (twin, resample step / array, "
         "filterargs, window_len, taperfrac; differently spelled arguments), calls of every kind the entry points reject (also part-way), "
         "after which the same object is used again}, and pairs of series processed with one caller's array; non-trivial = the history contains a successful "
-        "re-referencing of a series that has a reference; distinct by (constructor, data, history)")
+        "re-referencing of a series that has a reference; distinct by (constructor, data, history); LONG (c18_long): series of 999, 1000, "
+        "1001, 1023, 1024, 1025, 4095, 4096, 4097, 9999, 10000, 10001, 65535 ... 131073 samples on a 1/8 s grid with gaps in the first / "
+        "last elements, at multiples of 1000 / 1024 / 4096 / 10000 / 65536 and spanning them, built from floats + reference (datetime / "
+        "datetime64), datetime stamps, datetime64[us] stamps x histories of 4-7 steps over {set(x), set(None), read, copy, deepcopy}, "
+        "every sample compared in whole microseconds")
 
 EPOCH = datetime(2000, 1, 1)
 NS_FINDING = "F23"          # id under which the nanosecond-resolution defect is to be registered in known_findings.json
@@ -912,6 +916,9 @@ def run(chk):
     run_shared(chk, drv)
     check_refs(chk, drv)
     c18_proc.run_proc(chk, drv)
+    # audit round 8: the same clauses on LONG, non-uniformly sampled series (999 ... 131073 samples), exact microsecond reference
+    from . import c18_long
+    c18_long.run_long(chk, core.load_corpus("C18"))
     # nanosecond resolution: enforced once registered in known_findings.json (status known -> KNOWN-FINDING, fixed -> must hold)
     ns = ns_probe()
     chk.count("ns.probe", 2)
@@ -962,6 +969,9 @@ def replay(rp):
     case = rp.get("input") or {}
     if case.get("kind") in ("proc", "procpair"):
         return c18_proc.replay_proc(rp)
+    if case.get("kind") == "long":
+        from . import c18_long
+        return c18_long.replay_long(case)
     if case.get("kind") == "shared":
         fails = []
         tol = 0.0 if case.get("exact", True) else 2e-6
